@@ -538,9 +538,8 @@ class SArr(np.ndarray):
         tgt = np.ndarray.__getitem__(self.view(np.ndarray), idx)
         scalar_target = not (isinstance(tgt, np.ndarray) and tgt.ndim > 0)
         if scalar_target and isinstance(v, (np.ndarray, list, tuple)) and np.ndim(v) > 0:
-            if np.size(v) != 1:
-                raise ValueError('setting an array element with a sequence (shape error masked by object dtype)')
-            v = np.asarray(v, dtype=object).reshape(()).item()
+            # NumPy >= 2 raises here for float arrays, also for sequences of length 1
+            raise ValueError('setting an array element with a sequence.')
         np.ndarray.__setitem__(self, idx, v)
 
     @property
